@@ -1,22 +1,6 @@
-//! Discovery scenarios (C16 matched status, C17 participant discovery / lease) over the
-//! simulated stack (see vh::sim).  COPY of bin/sim.rs with discovery ops added.  One scenario
-//! per stdin line, ops separated by ';'.  Because the factory owns a process-wide static
-//! channel, every scenario runs in a fresh child process (`disc --one`).
-//!
-//! added ops:
-//!   qR <r> dl=<ns|-1> lb=<ns> ud=<byte>      set_qos on reader r (get_qos, change the given policies, set_qos)
-//!   qW <w> dl=<ns|-1> lb=<ns> ud=<byte>      set_qos on writer w
-//!   ms <w> | mp <r>                          get_matched_subscriptions / publications (storage order; r<i>/w<i> or x<hex>)
-//!   dp <p>                                   get_discovered_participants of p (storage order, participant indices)
-//!   ign <p> <q>                              participant p ignores participant q
-//!   mute <p> <0|1>                           1: every datagram sent by p is dropped at delivery time
-//!   mfault <drop|dup|hold> <from|-1> <to|-1> <SPDP|SEDP|ANY> <times|-1>   rule on METAtraffic datagrams
-//!   lease <p> <ns>                           rewrite PID_PARTICIPANT_LEASE_DURATION in SPDP datagrams sent by p
-//!   jump <ns>                                set the clock forward by ns in ONE step (one worker wake), then settle
-//!   now                                      simulated clock
-//!   dst <w>                                  destinations (participant:reader) of DATA/HEARTBEAT/GAP sent by writer w since the last dst/sent
-//!   net additionally reports the delivered metatraffic: S<q>><p> SPDP data, X<q>><p> SPDP dispose/unregister,
-//!       E<q>><p> other DATA-carrying metatraffic, U<q>><p> user DATA
+//! Scenario interpreter over the simulated stack (see vh::sim).  One scenario per
+//! stdin line, ops separated by ';'.  Because the factory owns a process-wide static
+//! channel, every scenario runs in a fresh child process (`sim --one`).
 //!
 //! ops (indices refer to creation order of each entity kind, starting at 0):
 //!   cfg frag=<n> tag=<s> ann=<ms>           (before creating participants)
@@ -161,107 +145,7 @@ fn summarize(bytes: &[u8]) -> Vec<(String, u32, i64, i64)> {
     v
 }
 
-/// minimal RTPS datagram walker, independent of the crate's message API:
-/// (submessage id, reader entity id, writer entity id, sn, flags, payload offset) per submessage
-fn raw_submessages(b: &[u8]) -> Vec<(u8, [u8; 4], [u8; 4], i64, u8, usize, usize)> {
-    let mut v = vec![];
-    if b.len() < 20 || &b[0..4] != b"RTPS" {
-        return v;
-    }
-    let mut i = 20;
-    while i + 4 <= b.len() {
-        let id = b[i];
-        let fl = b[i + 1];
-        let le = fl & 1 == 1;
-        let rd16 = |o: usize| -> usize {
-            if le { u16::from_le_bytes([b[o], b[o + 1]]) as usize } else { u16::from_be_bytes([b[o], b[o + 1]]) as usize }
-        };
-        let rd32 = |o: usize| -> i64 {
-            let x = [b[o], b[o + 1], b[o + 2], b[o + 3]];
-            (if le { u32::from_le_bytes(x) } else { u32::from_be_bytes(x) }) as i64
-        };
-        let mut len = rd16(i + 2);
-        let body = i + 4;
-        if len == 0 && id != 0x01 && id != 0x09 {
-            len = b.len() - body;
-        }
-        if body + len > b.len() {
-            break;
-        }
-        let e4 = |o: usize| -> [u8; 4] { [b[o], b[o + 1], b[o + 2], b[o + 3]] };
-        match id {
-            0x15 | 0x16 if len >= 20 => {
-                let sn = (rd32(body + 12) << 32) | rd32(body + 16);
-                let o2q = rd16(body + 2);
-                v.push((id, e4(body + 4), e4(body + 8), sn, fl, body + 4 + o2q, body + len));
-            }
-            0x07 if len >= 24 => {
-                let sn = (rd32(body + 16) << 32) | rd32(body + 20);
-                v.push((id, e4(body), e4(body + 4), sn, fl, 0, 0));
-            }
-            0x06 | 0x08 | 0x12 if len >= 8 => v.push((id, e4(body), e4(body + 4), 0, fl, 0, 0)),
-            _ => {}
-        }
-        i = body + len;
-    }
-    v
-}
-const SPDP_WRITER: [u8; 4] = [0x00, 0x01, 0x00, 0xc2];
-/// class of a metatraffic datagram: 'S' SPDP data, 'X' SPDP dispose/unregister, 'E' other DATA, 'h' no DATA at all
-fn meta_class(b: &[u8]) -> char {
-    let mut c = 'h';
-    for (id, _r, w, _sn, fl, _, _) in raw_submessages(b) {
-        if id == 0x15 || id == 0x16 {
-            if w == SPDP_WRITER {
-                // DATA flags: bit2 = data present, bit3 = key present
-                return if id == 0x15 && fl & 0x04 == 0 { 'X' } else { 'S' };
-            }
-            c = 'E';
-        }
-    }
-    c
-}
-fn user_has_data(b: &[u8]) -> bool {
-    raw_submessages(b).iter().any(|x| x.0 == 0x15 || x.0 == 0x16)
-}
-/// rewrites the lease duration parameter (PID 0x0002, length 8: sec i32, nanosec u32, LE) of an SPDP DATA
-fn patch_lease(b: &mut [u8], ns: i64) -> bool {
-    let subs = raw_submessages(b);
-    for (id, _r, w, _sn, fl, p0, p1) in subs {
-        if id == 0x15 && w == SPDP_WRITER && fl & 0x04 != 0 && p1 >= 16 && p0 < p1 {
-            let mut j = p1 - 16;
-            while j >= p0 {
-                if b[j..j + 4] == [0x02, 0x00, 0x08, 0x00] && b[j + 12..j + 16] == [0x01, 0x00, 0x00, 0x00] {
-                    let sec = (ns / 1_000_000_000) as i32;
-                    let nano = (ns % 1_000_000_000) as u32;
-                    b[j + 4..j + 8].copy_from_slice(&sec.to_le_bytes());
-                    b[j + 8..j + 12].copy_from_slice(&nano.to_le_bytes());
-                    return true;
-                }
-                if j < 4 {
-                    break;
-                }
-                j -= 4;
-            }
-        }
-    }
-    false
-}
-
-#[derive(Clone)]
-struct MetaRule {
-    action: u8,
-    from: i64,
-    to: i64,
-    class: String,
-    times: i64,
-}
-
 struct World {
-    muted: Vec<usize>,
-    mrules: Vec<MetaRule>,
-    leases: HashMap<usize, i64>,
-    net_log: Vec<String>,
     sim: Sim,
     factory: DomainParticipantFactoryAsync<SimTransport>,
     parts: Vec<DomainParticipantAsync>,
@@ -643,10 +527,6 @@ fn run_scenario(line: &str) -> String {
         readers: vec![],
         rules: vec![],
         sent_mark: 0,
-        muted: vec![],
-        mrules: vec![],
-        leases: HashMap::new(),
-        net_log: vec![],
     };
     let mut out = vec![];
     for op in line.split(';') {
